@@ -39,7 +39,19 @@ pub fn server_binary() -> PathBuf {
     PathBuf::from(std::env::var("VERIF_SERVER_BIN").unwrap_or_else(|_| format!("{}/target/server/debug/agdb_server", verif_root())))
 }
 
-fn free_port() -> u16 {
+/// Ports come from a range private to this process (by pid) and are never handed out twice,
+/// so that servers started concurrently by the workers of one run cannot race for a port; a
+/// port that is in use by somebody else is skipped.
+pub fn free_port() -> u16 {
+    static NEXT: std::sync::atomic::AtomicU32 = std::sync::atomic::AtomicU32::new(0);
+    let base = 20000 + (std::process::id() % 160) * 250;
+    for _ in 0..250 {
+        let k = NEXT.fetch_add(1, std::sync::atomic::Ordering::Relaxed) % 250;
+        let port = (base + k) as u16;
+        if std::net::TcpListener::bind(("127.0.0.1", port)).is_ok() {
+            return port;
+        }
+    }
     let l = std::net::TcpListener::bind("127.0.0.1:0").expect("bind");
     l.local_addr().unwrap().port()
 }
@@ -107,15 +119,27 @@ impl Server {
 
     /// Raw HTTP request; `path` is sent verbatim (already encoded by the caller).
     pub fn request(&self, method: &str, path: &str, token: Option<&str>, body: Option<&str>) -> std::io::Result<Resp> {
+        http_request(self.port, method, path, token, body, 40)
+    }
+}
+
+/// Raw HTTP/1.1 request to 127.0.0.1:`port`; `connect_attempts` x 250 ms of connection retries.
+pub fn http_request(port: u16, method: &str, path: &str, token: Option<&str>, body: Option<&str>, connect_attempts: u32) -> std::io::Result<Resp> {
+    struct P {
+        port: u16,
+    }
+    let this = P { port };
+    let self_ = &this;
+    {
         // connecting is retried (a loaded machine can refuse or time out a connection before
         // the request exists, so a retry cannot apply anything twice)
         let mut attempt = 0;
         let mut stream = loop {
-            match TcpStream::connect_timeout(&std::net::SocketAddr::from(([127, 0, 0, 1], self.port)), Duration::from_secs(5)) {
+            match TcpStream::connect_timeout(&std::net::SocketAddr::from(([127, 0, 0, 1], self_.port)), Duration::from_secs(5)) {
                 Ok(s) => break s,
                 Err(e) => {
                     attempt += 1;
-                    if attempt >= 40 {
+                    if attempt >= connect_attempts {
                         return Err(e);
                     }
                     std::thread::sleep(Duration::from_millis(250));
@@ -124,7 +148,7 @@ impl Server {
         };
         stream.set_read_timeout(Some(Duration::from_secs(120)))?;
         stream.set_write_timeout(Some(Duration::from_secs(20)))?;
-        let mut req = format!("{method} {path} HTTP/1.1\r\nHost: 127.0.0.1:{}\r\nConnection: close\r\nAccept: application/json\r\n", self.port);
+        let mut req = format!("{method} {path} HTTP/1.1\r\nHost: 127.0.0.1:{}\r\nConnection: close\r\nAccept: application/json\r\n", self_.port);
         if let Some(t) = token {
             req.push_str(&format!("Authorization: Bearer {t}\r\n"));
         }
@@ -144,7 +168,9 @@ impl Server {
         }
         Ok(Resp { status, body })
     }
+}
 
+impl Server {
     pub fn call(&self, method: &str, path: &str, token: Option<&str>, body: Option<&Value>) -> Resp {
         let b = body.map(|v| v.to_string());
         // only a read-only request may be repeated after it was sent
